@@ -429,6 +429,16 @@ def main(ctx):
                     ctx.count('names', 'illegal-internal-before-illegal-ports')
             except pyrtl.PyrtlError:
                 pass
+        if k % 3 == 2:
+            # user-named constants, some with names that must be replaced: a constant is declared, assigned and read under
+            # one (replacement) name like any other wire
+            consts_ = sorted((w for w in d.block.wirevector_set if isinstance(w, pyrtl.Const)), key=lambda w: w.name)
+            try:
+                for j_, c_ in enumerate(rng.sample(consts_, min(len(consts_), 3))):
+                    c_.name = rng.choice(['coef[%d]', 'K.%d', 'k%d', '%dk', 'always%d'][j_ % 2:]) % (k + j_)
+                    ctx.count('names', 'user-named-constant')
+            except pyrtl.PyrtlError:
+                pass
         try:
             d.block.sanity_check()
         except pyrtl.PyrtlError:
